@@ -330,17 +330,38 @@ def rule_provider(ctx) -> None:
     chk.decide(a2 == b2 and not missing and "password" in b, "C08.provider", ip.qual, "the retry after the passphrase prompt passes every named parameter of the first attempt (only the password differs)",
                f"first attempt {a}; retry {b}; named parameters not forwarded on retry: {missing}", "", A.loc(SP, calls[1]))
     pf = ctx.own(SP, "PlainFileSP", "__init__")
-    t = norm(pf.node)
-    ok = "self.sign_kwargs = kwargs" in t and "self.private_key = PrivateKey.load(self.file_path, password=password)" in t and "self.hash_alg = hash_alg" in t and t.find("self.sign_kwargs = kwargs") < t.find("self.hash_alg = hash_alg")
-    chk.decide(ok, "C08.provider", pf.qual, "extra parameters become the signing keyword arguments; the hash is applied after they are stored", t[:200], "", A.loc(SP, pf.node))
+    # attribute stores along the symbolic paths, in order (temporaries and renamed locals do not matter)
+    ok = True
+    detail = ""
+    for q in A.spaths(pf.node):
+        if q.end not in ("fall", "return"):
+            continue
+        order = [(norm(s2.targets[0]), norm(s2.value)) for s2 in q.sstmts if isinstance(s2, ast.Assign) and isinstance(s2.targets[0], ast.Attribute)]
+        d_ = dict(order)
+        pw = "load_secret(password, search_paths)" if q.assumes("password", True) else "None"
+        names = [k for k, _v in order]
+        good = d_.get("self.sign_kwargs") == "kwargs" and d_.get("self.private_key") == f"PrivateKey.load(self.file_path, password={pw})" and d_.get("self.hash_alg") == "hash_alg" \
+            and "self.sign_kwargs" in names and "self.hash_alg" in names and names.index("self.sign_kwargs") < names.index("self.hash_alg")
+        if not good:
+            ok = False
+            detail = f"{order}"[:260]
+    chk.decide(ok, "C08.provider", pf.qual, "extra parameters become the signing keyword arguments; the key is loaded with the resolved secret; the hash is applied after the arguments are stored", detail, "", A.loc(SP, pf.node))
     hs = ctx.own(SP, "PlainFileSP", "hash_alg", "setter")
     chk.decide("self.sign_kwargs['algorithm'] = hash_alg" in norm(hs.node) and "self._hash_alg = hash_alg" in norm(hs.node), "C08.provider", hs.qual + " setter", "a configured hash becomes the `algorithm` signing argument", "", "", A.loc(SP, hs.node))
     sg = ctx.own(SP, "PlainFileSP", "sign")
     chk.decide(norm(A.returns_in(sg.node)[-1].value) == "self.private_key.sign(data, **self.sign_kwargs)", "C08.provider", sg.qual, "signs with the loaded key and the stored parameters", "", "", A.loc(SP, sg.node))
     gs = ctx.own(SP, "SignatureProvider", "get_signature")
-    t = norm(gs.node)
-    ok = "signature = self.sign(data)" in t and "ecdsa_sig = ECDSASignature.parse(signature)" in t and "signature = ecdsa_sig.export(encoding or SPSDKEncoding.NXP)" in t and "except SPSDKValueError: pass" in t.replace("\n", " ").replace("    ", "")
-    chk.decide(ok, "C08.provider", gs.qual, "ECDSA signatures are normalised to the requested encoding (raw by default); other signatures pass unchanged", t[:200], "", A.loc(SP, gs.node))
+    # return values along the symbolic paths: the normalised ECDSA form when parsing succeeds, the signature as it is when the parser
+    # refuses it (the handler path starts from the state before the try)
+    rets = {q.vtext for q in A.spaths(gs.node) if q.end == "return"}
+    want_r = {"ECDSASignature.parse(self.sign(data)).export(encoding or SPSDKEncoding.NXP)", "self.sign(data)"}
+    tr = [n for n in ast.walk(gs.node) if isinstance(n, ast.Try)]
+    h_ok = len(tr) == 1 and len(tr[0].handlers) == 1 and norm(tr[0].handlers[0].type) == "SPSDKValueError" and any("ECDSASignature.parse" in norm(x) for x in tr[0].body)
+    # (a name re-bound inside the try is opaque on the handler path: `signature` there still is what was bound before the try)
+    pre = [norm(s2.value) for s2 in A.body_of(gs.node) if isinstance(s2, ast.Assign) and norm(s2.targets[0]) == "signature"]
+    if "signature" in rets and pre[:1] == ["self.sign(data)"]:
+        rets = (rets - {"signature"}) | {"self.sign(data)"}
+    chk.decide(rets == want_r and h_ok, "C08.provider", gs.qual, "ECDSA signatures are normalised to the requested encoding (raw by default); other signatures pass unchanged", f"{sorted(rets)}; handler ok {h_ok}", "", A.loc(SP, gs.node))
     gp = ctx.func(SP, "get_signature_provider")
     t = norm(gp.node)
     chk.decide("signature_provider = InteractivePlainFileSP(file_path=local_file_key, **kwargs)" in t and "if k not in params: params[k] = v" in t.replace("\n", " ").replace("    ", ""), "C08.provider", gp.qual,
